@@ -36,7 +36,7 @@ fn plan(tier: Tier) -> Plan {
             exhaustive: false,
         },
         Tier::Thorough => Plan {
-            cases: 300_000,
+            cases: 1_200_000,
             time_cap_s: 420,
             case_timeout_s: 20,
             exhaustive: false,
